@@ -74,7 +74,7 @@ class StreamResult:
         self.crashes = 0
 
 
-def run_stream(workdir, header, case_lines, proj, oracles, sr, tag):
+def run_stream(workdir, header, case_lines, proj, oracles, sr, tag, spec_fields=None):
     cases_f = os.path.join(workdir, tag + ".cases")
     with open(cases_f, "w") as fh:
         fh.write(header + "\n" + "\n".join(case_lines) + "\n")
@@ -84,6 +84,7 @@ def run_stream(workdir, header, case_lines, proj, oracles, sr, tag):
     t1 = time.time()
     impl = open(impl_f).read().splitlines()
     model = core.run_model_lines(header, case_lines)
+    spec = core.run_model_lines(header, case_lines, spec=True) if spec_fields else None
     t2 = time.time()
     log("stream %s: %d cases, impl %.1fs, model %.1fs" % (tag, len(case_lines), t1 - t0, t2 - t1))
     if len(impl) != len(case_lines) or len(model) != len(case_lines):
@@ -91,7 +92,10 @@ def run_stream(workdir, header, case_lines, proj, oracles, sr, tag):
     sr.stats.setdefault("timeouts", 0)
     sr.stats["timeouts"] += summ.get("timeouts", 0)
     sr.crashes += summ.get("crashes", 0)
-    for cl, il, ml in zip(case_lines, impl, model):
+    if spec is not None and len(spec) != len(case_lines):
+        raise RuntimeError("stream %s: specification result count mismatch" % tag)
+    sr.stats.setdefault("spec_compared", 0)
+    for ci, (cl, il, ml) in enumerate(zip(case_lines, impl, model)):
         sr.cases += 1
         h = hashlib.md5(cl.split(" ", 2)[2].encode()).digest()[:8]
         new = h not in sr.distinct
@@ -130,6 +134,13 @@ def run_stream(workdir, header, case_lines, proj, oracles, sr, tag):
             sr.unattributed += 1
         if ir is None:
             ir = core.parse_result(il)
+        if spec is not None:
+            sk = spec[ci].split(" ", 3)[2]
+            if sk in ("ok", "fail", "panic"):
+                sr.stats["spec_compared"] += 1
+                dev = core.spec_compare(ir, core.parse_spec(spec[ci]), spec_fields)
+                if dev:
+                    sr.oracle_viol.append((cl, il, ml, "the implementation deviates from the PEG specification (Spec.eval): " + dev))
         if oracles:
             for orc in oracles:
                 for verdict in orc(cl, ir) or ():
